@@ -208,17 +208,39 @@ Definition std_addrx_names : list string :=
 Definition std_strx_names : list string :=
   ["DW_FORM_strx"; "DW_FORM_strx1"; "DW_FORM_strx2"; "DW_FORM_strx3"; "DW_FORM_strx4"].
 
+(* order-insensitive comparison: reordering a tuple in the source is harmless *)
+Definition same_names (a b : list string) : bool :=
+  forallb (fun x => existsb (String.eqb x) b) a && forallb (fun x => existsb (String.eqb x) a) b.
+Fixpoint snodup (l : list string) : bool :=
+  match l with [] => true | x :: r => negb (existsb (String.eqb x) r) && snodup r end.
+
+Lemma same_names_mem a b : same_names a b = true ->
+  forall n, existsb (String.eqb n) a = existsb (String.eqb n) b.
+Proof.
+  unfold same_names. intros H n. apply andb_prop in H. destruct H as [Hab Hba].
+  rewrite forallb_forall in Hab, Hba.
+  destruct (existsb (String.eqb n) a) eqn:Ea; destruct (existsb (String.eqb n) b) eqn:Eb; try reflexivity; exfalso.
+  - apply existsb_exists in Ea. destruct Ea as (x & Hx & E). apply String.eqb_eq in E. subst x.
+    specialize (Hab n Hx). congruence.
+  - apply existsb_exists in Eb. destruct Eb as (x & Hx & E). apply String.eqb_eq in E. subst x.
+    specialize (Hba n Hx). congruence.
+Qed.
+
 (* the three copies of the unit-relative reference tuple agree and are the unit-relative reference forms
    (DW_FORM_ref is the pre-standard name of code 2); the section-relative test is DW_FORM_ref_addr everywhere;
-   the value translation tests the standard's index forms, in an order in which no two tests overlap *)
+   the value translation tests the standard's index forms; no form name is tested twice in _translate_attr_value
+   (so the order of its tests is immaterial) and the names tested are exactly the ones the standard translates *)
 Theorem gen_form_name_sets :
-  gen_die_ref_unit_forms = std_unit_ref_names /\ gen_cu_sibling_unit_forms = std_unit_ref_names /\
-  gen_tu_sibling_unit_forms = std_unit_ref_names /\
+  same_names gen_die_ref_unit_forms std_unit_ref_names = true /\
+  same_names gen_cu_sibling_unit_forms std_unit_ref_names = true /\
+  same_names gen_tu_sibling_unit_forms std_unit_ref_names = true /\
   gen_cu_sibling_addr_form = "DW_FORM_ref_addr" /\ gen_tu_sibling_addr_form = "DW_FORM_ref_addr" /\
   gen_die_ref_addr_pattern = "DW_FORM_ref_addr" /\ gen_die_ref_sig8_pattern = "DW_FORM_ref_sig8" /\
-  gen_die_ref_sup_forms = ["DW_FORM_ref_sup4"; "DW_FORM_ref_sup8"; "DW_FORM_GNU_ref_alt"] /\
-  gen_translate_addrx_forms = std_addrx_names /\ gen_translate_strx_forms = std_strx_names /\
-  gen_translate_chain = [["DW_FORM_strp"]; ["DW_FORM_line_strp"]; ["DW_FORM_GNU_strp_alt"; "DW_FORM_strp_sup"];
-                         ["DW_FORM_flag"]; ["DW_FORM_flag_present"]; std_addrx_names; std_strx_names;
-                         ["DW_FORM_loclistx"]; ["DW_FORM_rnglistx"]].
-Proof. repeat split; reflexivity. Qed.
+  same_names gen_die_ref_sup_forms ["DW_FORM_ref_sup4"; "DW_FORM_ref_sup8"; "DW_FORM_GNU_ref_alt"] = true /\
+  same_names gen_translate_addrx_forms std_addrx_names = true /\
+  same_names gen_translate_strx_forms std_strx_names = true /\
+  snodup (concat gen_translate_chain) = true /\
+  same_names (concat gen_translate_chain)
+             (["DW_FORM_strp"; "DW_FORM_line_strp"; "DW_FORM_GNU_strp_alt"; "DW_FORM_strp_sup"; "DW_FORM_flag";
+               "DW_FORM_flag_present"; "DW_FORM_loclistx"; "DW_FORM_rnglistx"] ++ std_addrx_names ++ std_strx_names) = true.
+Proof. repeat split; vm_compute; reflexivity. Qed.
